@@ -336,14 +336,33 @@ def _inline_single_use_iterators(stmts: List[ast.stmt]) -> List[ast.stmt]:
                 setattr(st, fld, _inline_single_use_iterators(sub))
         for h in getattr(st, "handlers", []) or []:
             h.body = _inline_single_use_iterators(h.body)
+    def movable_past(value: ast.AST, name: str, other: ast.stmt) -> bool:
+        """a generator expression only evaluates its first iterable when it is created; when that is a plain name / attribute path, creating
+        it after a simple statement that neither mentions the generator nor rebinds that name is the same computation"""
+        if not (isinstance(value, ast.GeneratorExp) and _is_pure_path(value.generators[0].iter)):
+            return False
+        if not isinstance(other, (ast.Assign, ast.AnnAssign, ast.AugAssign, ast.Expr)):
+            return False
+        root = value.generators[0].iter
+        while isinstance(root, ast.Attribute):
+            root = root.value
+        for x in ast.walk(other):
+            if isinstance(x, ast.Name) and (x.id == name or (isinstance(root, ast.Name) and x.id == root.id and not isinstance(x.ctx, ast.Load))):
+                return False
+            if isinstance(x, (ast.Yield, ast.YieldFrom, ast.Await, ast.NamedExpr)):
+                return False
+        return True
+
     while i < len(stmts):
         st = stmts[i]
-        if isinstance(st, ast.Assign) and len(st.targets) == 1 and isinstance(st.targets[0], ast.Name) and \
-                (lazy(st.value) or isinstance(st.value, ast.Call)):
-            name = st.targets[0].id
+        simple_bind = (isinstance(st, ast.Assign) and len(st.targets) == 1 and isinstance(st.targets[0], ast.Name)) or \
+            (isinstance(st, ast.AnnAssign) and isinstance(st.target, ast.Name) and st.value is not None)
+        if simple_bind and (lazy(st.value) or isinstance(st.value, ast.Call)):
+            name = st.targets[0].id if isinstance(st, ast.Assign) else st.target.id
             j = i + 1
-            while j < len(stmts) and isinstance(stmts[j], ast.Expr) and isinstance(stmts[j].value, ast.Call) and is_logging_call(stmts[j].value) \
-                    and not any(isinstance(x, ast.Name) and x.id == name for x in ast.walk(stmts[j])):
+            while j < len(stmts) and not any(isinstance(x, ast.Name) and x.id == name for x in ast.walk(stmts[j])) and \
+                    ((isinstance(stmts[j], ast.Expr) and isinstance(stmts[j].value, ast.Call) and is_logging_call(stmts[j].value))
+                     or movable_past(st.value, name, stmts[j])):
                 j += 1
             if j < len(stmts) and isinstance(stmts[j], ast.For) and isinstance(stmts[j].iter, ast.Name) and stmts[j].iter.id == name:
                 uses = sum(1 for later in stmts[i + 1:] for x in ast.walk(later) if isinstance(x, ast.Name) and x.id == name)
@@ -382,6 +401,18 @@ class _Subst(ast.NodeTransformer):
     def visit_Name(self, n):
         if n.id == self.name and isinstance(n.ctx, ast.Load):
             return ast.copy_location(copy.deepcopy(self.value), n)
+        return n
+
+
+class _SubstName(ast.NodeTransformer):
+    """simultaneous substitution of loaded names by expressions (the substituted expressions are not visited again)"""
+
+    def __init__(self, mapping: Dict[str, ast.AST]):
+        self.m = mapping
+
+    def visit_Name(self, n):
+        if n.id in self.m and isinstance(n.ctx, ast.Load):
+            return ast.copy_location(copy.deepcopy(self.m[n.id]), n)
         return n
 
 
@@ -439,6 +470,15 @@ class _Desugar(ast.NodeTransformer):
         unrolled = self._any_all_over_table(c)
         if unrolled is not None:
             return unrolled
+        # a generator expression over a static table that is consumed completely and at once (sep.join(..), list(..), sorted(..), sum(..),
+        # xs.extend(..)) is the display of its elements: same elements, same evaluation order
+        nm_ = c.func.attr if isinstance(c.func, ast.Attribute) else (c.func.id if isinstance(c.func, ast.Name) else "")
+        if nm_ in ("join", "list", "tuple", "set", "frozenset", "sorted", "sum", "max", "min", "dict", "extend", "update") and len(c.args) >= 1 \
+                and isinstance(c.args[0], ast.GeneratorExp) and not (isinstance(c.func, ast.Name) and self.local_names is not None and nm_ in self.local_names):
+            as_list = ast.copy_location(ast.ListComp(elt=c.args[0].elt, generators=c.args[0].generators), c.args[0])
+            d = self._comp_as_display(as_list)
+            if d is not None:
+                c.args[0] = d
         simple = self._simple_call_forms(c)
         if simple is not None:
             return simple
@@ -936,6 +976,10 @@ class _Desugar(ast.NodeTransformer):
 
         if has_break(n.body):
             return None
+        eager = isinstance(it, ast.ListComp) and not self._effect_free(it)
+        # a LIST is built completely before the first turn of the loop: fusing it with the loop would interleave the element computations
+        # with the body, which is only the same program when computing the elements has no effects.  Otherwise the list is built first,
+        # element by element, and the loop then runs over it (exactly what the interpreter does)
         k = next(_counter)
         names = {x.id for g_ in it.generators for x in ast.walk(g_.target) if isinstance(x, ast.Name)}
         ren = _Renamer({nm: f"{nm}__c{k}" for nm in names})
@@ -947,19 +991,75 @@ class _Desugar(ast.NodeTransformer):
             itx = g_.iter if i == 0 else ren.visit(g_.iter)
             gens.append((tgt, itx, [ren.visit(c) for c in g_.ifs]))
         elt = ren.visit(it.elt)
-        inner: List[ast.stmt] = [ast.Assign(targets=[n.target], value=elt, lineno=n.lineno)] + list(n.body)
+        tmp = f"built__c{k}"
+        if eager:
+            inner: List[ast.stmt] = [ast.Expr(value=ast.Call(func=ast.Attribute(value=ast.Name(id=tmp, ctx=ast.Load()), attr="append", ctx=ast.Load()),
+                                                             args=[elt], keywords=[]))]
+        else:
+            inner = [ast.Assign(targets=[n.target], value=elt, lineno=n.lineno)] + list(n.body)
         for tgt, itx, ifs in reversed(gens):
             body = inner
             if ifs:
                 test = ifs[0] if len(ifs) == 1 else ast.BoolOp(op=ast.And(), values=ifs)
                 body = [ast.If(test=test, body=inner, orelse=[])]
             inner = [ast.For(target=tgt, iter=itx, body=body, orelse=[])]
+        if eager:
+            inner = [ast.Assign(targets=[ast.Name(id=tmp, ctx=ast.Store())], value=ast.List(elts=[], ctx=ast.Load()), lineno=n.lineno)] + inner + \
+                [ast.For(target=n.target, iter=ast.Name(id=tmp, ctx=ast.Load()), body=list(n.body), orelse=[])]
         out = self._fix(inner, n)
         res: List[ast.stmt] = []
         for x in out:
             r_ = self.visit(x)      # the new loops may themselves run over static tables / comprehensions
             res.extend(r_ if isinstance(r_, list) else [r_])
         return res
+
+    _PURE_CALLS = {"len", "str", "int", "float", "bool", "repr", "sorted", "list", "dict", "set", "tuple", "frozenset", "zip", "enumerate", "range", "isinstance",
+                   "getattr", "hasattr", "min", "max", "sum", "any", "all", "abs", "round", "format", "reversed", "map", "filter", "type", "id", "hash",
+                   "get", "items", "keys", "values", "copy", "lower", "upper", "strip", "lstrip", "rstrip", "split", "join", "startswith", "endswith",
+                   "replace", "index", "count", "is_sub_type", "is_integer", "union", "intersection", "difference", "isdisjoint", "issubset", "chain",
+                   "from_iterable", "starmap", "attrgetter", "itemgetter", "methodcaller", "partial", "deepcopy", "Counter", "defaultdict", "OrderedDict"}
+
+    def _effect_free(self, e: ast.AST, depth: int = 0, seen: Optional[set] = None) -> bool:
+        """conservative: every call in the expression is to a function from a list of value-only builtins / methods, to a class of the
+        repository (a constructor), or to a repository function whose body is effect-free in the same sense (depth 3)"""
+        fv = self.fv
+        seen = seen if seen is not None else set()
+        for c in ast.walk(e):
+            if isinstance(c, (ast.Yield, ast.YieldFrom, ast.Await, ast.NamedExpr)) and depth == 0:
+                return False
+            if not isinstance(c, ast.Call):
+                continue
+            nm = c.func.attr if isinstance(c.func, ast.Attribute) else (c.func.id if isinstance(c.func, ast.Name) else "")
+            if nm in self._PURE_CALLS:
+                continue
+            if fv.repo is None or fv.f is None or depth >= 3:
+                return False
+            if nm in fv.repo.classes:
+                continue
+            try:
+                _cat, tg = fv.repo.resolve_call(fv.f, c)
+            except Exception:
+                return False
+            targets = [t for _k, t, _c in tg if t is not None]
+            if not targets:
+                return False
+            for t in targets:
+                if t.qn in seen:
+                    continue
+                seen.add(t.qn)
+                for st in t.node.body:
+                    if isinstance(st, ast.Expr) and isinstance(st.value, ast.Constant):
+                        continue
+                    for x in ast.walk(st):
+                        if isinstance(x, (ast.Assign, ast.AugAssign, ast.AnnAssign)):
+                            tgs = x.targets if isinstance(x, ast.Assign) else [x.target]
+                            if any(not isinstance(y, (ast.Name, ast.Tuple, ast.List)) for y in tgs):
+                                return False        # a store into an attribute / subscript
+                        if isinstance(x, (ast.Delete, ast.Global, ast.Nonlocal)):
+                            return False
+                    if not self._effect_free(st, depth + 1, seen):
+                        return False
+        return True
 
     def _any_all_over_table(self, c: ast.Call) -> Optional[ast.AST]:
         """`any(E for v in TABLE [if C])` -> `(C1 and E1) or (C2 and E2) ..`, `all(..)` -> `((not C1) or E1) and ..` over a static table
@@ -1654,12 +1754,144 @@ class Flattener:
                     ast.copy_location(sub, comp)
         return body
 
+    # ------------------------------------------------------------------ helpers that are one expression, inside comprehensions
+    def _as_expression(self, callee: FuncInfo, call: ast.Call, recv: Optional[ast.AST]) -> Optional[ast.AST]:
+        """the value of the call as ONE expression over the caller's names, when the helper is `t1 = E1; ..; return E` with every
+        temporary used exactly once and every parameter either used at most once or bound to a plain name / attribute path / constant
+        (then substituting is the same computation in the same order); None otherwise"""
+        fn = callee.node
+        body = list(fn.body)
+        if body and isinstance(body[0], ast.Expr) and isinstance(body[0].value, ast.Constant) and isinstance(body[0].value.value, str):
+            body = body[1:]
+        if not body or not isinstance(body[-1], ast.Return) or body[-1].value is None:
+            return None
+        temps: List[Tuple[str, ast.AST]] = []
+        for st in body[:-1]:
+            if isinstance(st, ast.Expr) and isinstance(st.value, ast.Call) and is_logging_call(st.value):
+                continue
+            if isinstance(st, ast.Assign) and len(st.targets) == 1 and isinstance(st.targets[0], ast.Name):
+                temps.append((st.targets[0].id, st.value))
+            elif isinstance(st, ast.AnnAssign) and isinstance(st.target, ast.Name) and st.value is not None:
+                temps.append((st.target.id, st.value))
+            else:
+                return None
+        if len({t for t, _v in temps}) != len(temps):
+            return None
+        if any(isinstance(x, (ast.Lambda, ast.NamedExpr, ast.Yield, ast.YieldFrom, ast.Await)) for st in body for x in ast.walk(st)):
+            return None
+        params = list(callee.params)
+        bound: Dict[str, ast.AST] = {}
+        if callee.is_method:
+            is_cm = any(isinstance(d, ast.Name) and d.id == "classmethod" for d in fn.decorator_list)
+            if recv is None:
+                return None
+            bound[params[0]] = ast.Name(id=callee.cls, ctx=ast.Load()) if is_cm else recv
+            params = params[1:]
+        if len(call.args) > len(params):
+            return None
+        for p_, a in zip(params, call.args):
+            bound[p_] = a
+        for k in call.keywords:
+            if k.arg not in params or k.arg in bound:
+                return None
+            bound[k.arg] = k.value
+        for p_ in params:
+            if p_ not in bound:
+                if p_ in callee.defaults and isinstance(callee.defaults[p_], ast.Constant):
+                    bound[p_] = callee.defaults[p_]
+                else:
+                    return None
+        expr = copy.deepcopy(body[-1].value)
+        later = [copy.deepcopy(v) for _t, v in temps]
+
+        def uses(name: str, nodes) -> int:
+            return sum(1 for nd in nodes for x in ast.walk(nd) if isinstance(x, ast.Name) and x.id == name and isinstance(x.ctx, ast.Load))
+
+        # temporaries, last first: each is used exactly once in what follows it
+        for i in range(len(temps) - 1, -1, -1):
+            name = temps[i][0]
+            rest = later[i + 1:] + [expr]
+            if uses(name, rest) != 1:
+                return None
+            sub = _SubstName({name: later[i]})
+            later[i + 1:] = [sub.visit(x) for x in later[i + 1:]]
+            expr = sub.visit(expr)
+        comp_vars = {x.id for nd in ast.walk(expr) if isinstance(nd, ast.comprehension) for x in ast.walk(nd.target) if isinstance(x, ast.Name)}
+        if comp_vars & set(bound):
+            return None
+        for p_, a in bound.items():
+            n_uses = uses(p_, [expr])
+            if n_uses != 1 and not _is_pure_path(a) and not isinstance(a, ast.Constant):
+                return None
+            if any(isinstance(x, ast.Name) and x.id in comp_vars for x in ast.walk(a)):
+                return None
+        if any(isinstance(x, ast.Name) and isinstance(x.ctx, ast.Store) and x.id in bound for x in ast.walk(expr)):
+            return None
+        if comp_vars:
+            k = next(_counter)
+            expr = _Renamer({v: f"{v}__e{k}" for v in comp_vars}).visit(expr)
+        expr = _SubstName({p_: a for p_, a in bound.items()}).visit(expr)
+        for x in ast.walk(expr):
+            if isinstance(x, (ast.expr, ast.stmt)):
+                ast.copy_location(x, call)
+        return ast.fix_missing_locations(expr)
+
+    def _expression_helpers_in_comprehensions(self, s: ast.stmt, ctx: FuncInfo, stack, rename) -> ast.stmt:
+        """helper calls INSIDE comprehensions / generator expressions (elements, filters) cannot be inlined as statements; those that are one
+        expression are written in place"""
+        this = self
+
+        class T(ast.NodeTransformer):
+            inside = 0
+            changed = False
+
+            def visit_FunctionDef(self, n):
+                return n
+            visit_AsyncFunctionDef = visit_Lambda = visit_ClassDef = visit_FunctionDef
+
+            def _comp(self, n):
+                self.inside += 1
+                try:
+                    return self.generic_visit(n)
+                finally:
+                    self.inside -= 1
+            visit_ListComp = visit_SetComp = visit_DictComp = visit_GeneratorExp = _comp
+
+            def visit_Call(self, c):
+                self.generic_visit(c)
+                if not self.inside:
+                    return c
+                try:
+                    probe = this._resolve_ctx_call(ctx, c, rename)
+                    tg = this._target(ctx, probe, stack)
+                    if tg is None:
+                        return c
+                    callee, _recv = tg
+                    recv = c.func.value if isinstance(c.func, ast.Attribute) else None
+                    e = this._as_expression(callee, c, recv)
+                except Exception:
+                    return c
+                if e is None:
+                    return c
+                self.changed = True
+                this.inlined.append(callee.qn)
+                return e
+
+        for _ in range(4):
+            t = T()
+            s = t.visit(s)
+            if not t.changed:
+                break
+        return s
+
     def _flatten_stmt(self, s: ast.stmt, ctx: FuncInfo, stack, depth, rename) -> List[ast.stmt]:
         came_from = getattr(s, "_inl_stack", None)
         if came_from:
             stack = tuple(dict.fromkeys(tuple(stack) + tuple(came_from)))
         if depth > self.depth:
             return [s]
+        if any(isinstance(x, (ast.ListComp, ast.SetComp, ast.DictComp, ast.GeneratorExp)) for x in ast.walk(s)):
+            s = self._expression_helpers_in_comprehensions(s, ctx, stack, rename)
         COMPS = (ast.ListComp, ast.SetComp, ast.DictComp)
         val = getattr(s, "value", None)
         if isinstance(s, (ast.Assign, ast.AnnAssign, ast.Return)) and isinstance(val, COMPS) and self._has_inlinable_call(val, ctx, stack, rename):
@@ -1811,7 +2043,17 @@ class Flattener:
             pass
         propagate_constants(self.repo, self.f, fn)
         if self.inlined:
+            before = ast.dump(ast.Module(body=fn.body, type_ignores=[]))
             specialise(fn)
+            if ast.dump(ast.Module(body=fn.body, type_ignores=[])) != before:
+                # deciding a branch on a constant-bound parameter can leave a function value bound once (`to_text = str if typed else
+                # attrgetter("a")` with typed = False): applied where it is called, and what that shows is normalised once more
+                try:
+                    if apply_bound_function_values(self.repo, self.f, fn):
+                        fn.body = self._flatten_block(_loops_over_generators(self.repo, self.f, normalise_body(list(fn.body), self.repo, self.f)),
+                                                      self.f, (self.f.qn,), 1)
+                except Exception:
+                    pass
         ast.fix_missing_locations(fn)
         flat = FuncInfo(self.f.mod, self.f.cls, fn, static=self.f.static)
         flat.qn = self.f.qn            # findings are reported against the public function
